@@ -2,6 +2,7 @@
    derivable from it (DESIGN B.2: induction on the rank, then a sweep over the argument positions
    along the successor chains). -/
 import PS.Proofs.Enum.UOrderRun
+import PS.Proofs.Enum.GFrontier
 namespace PS.UHS
 open PS PS.G
 set_option linter.unusedSectionVars false
@@ -106,13 +107,15 @@ theorem derList_of_forall (E : Env U π) : ∀ (a : List Prog) (v : List (UNT U)
   | x :: a, y :: v, h, hp =>
     ⟨hp 0 x y rfl rfl, derList_of_forall E a v (by simpa using h) (fun j aj sj h1 h2 => hp (j + 1) aj sj h1 h2)⟩
 
-/-- **an exhausted non-terminal has popped every program derivable from it** -/
+/-- **an exhausted non-terminal has popped every derivable program all of whose sub-programs are accepted
+    by the filter** (without filter: every derivable program) -/
 theorem exhausted_complete (H : OHyp E rank Good) {s : St U π} (hb : Base E s) (hall : All E rank s) :
-    ∀ (r : Nat) (nt : UNT U), rank nt = r → Full E rank s nt → s.heapOf nt = [] → ∀ p, Der E p nt → Popped s nt p := by
+    ∀ (r : Nat) (nt : UNT U), rank nt = r → Full E rank s nt → s.heapOf nt = [] → ∀ p, Der E p nt →
+      PS.HG.clean E.filter p = true → Popped s nt p := by
   intro r
   induction r using Nat.strongRecOn with
   | _ r ih =>
-  intro nt hr hf hheap p hder
+  intro nt hr hf hheap p hder hclean
   obtain ⟨hn, hlive, hc⟩ := hf
   obtain ⟨F, b⟩ := p
   obtain ⟨v, w, hm, hdl⟩ := (der_node E F b nt).mp hder
@@ -120,10 +123,12 @@ theorem exhausted_complete (H : OHyp E rank Good) {s : St U π} (hb : Base E s) 
   obtain ⟨kids0, hk0seen, hk0len, hk0first⟩ := hc.initial F v w hm
   have hrankj : ∀ (j : Nat) (sj : UNT U), v[j]? = some sj → rank sj < rank nt :=
     fun j sj h => H.acyclic nt F v w hm sj (List.mem_of_getElem? h)
-  have hseenPop : ∀ q, q ∈ s.seenOf nt → Popped s nt q := by
+  have hnoheap : ∀ q, q ∉ s.heapProgs nt := by
+    intro q h1; unfold St.heapProgs at h1; rw [hheap] at h1; cases h1
+  have hseenPop : ∀ q, q ∈ s.seenOf nt → Popped s nt q ∨ E.filter q = false := by
     intro q hq
     rcases hc.cover q hq with h1 | h1
-    · unfold St.heapProgs at h1; rw [hheap] at h1; cases h1
+    · exact absurd h1 (hnoheap q)
     · exact h1
   have hfullj : ∀ (j : Nat) (sj : UNT U), v[j]? = some sj → Full E rank s sj := by
     intro j sj hsj
@@ -136,7 +141,7 @@ theorem exhausted_complete (H : OHyp E rank Good) {s : St U π} (hb : Base E s) 
   have hdone : ∀ a, Tree.node F a ∈ s.seenOf nt → DerList E a v → ∀ (j : Nat) (aj : Prog) (sj : UNT U),
       a[j]? = some aj → v[j]? = some sj → SuccDone s nt F a j aj sj := by
     intro a ha hda j aj sj haj hsj
-    have hp := hseenPop _ ha
+    have hp : Proc s nt (Tree.node F a) := ⟨ha, hnoheap _⟩
     obtain ⟨v', hv'⟩ := hc.keyed _ ha
     have hko := hb.sinv.keys_ok nt F a v' hv'
     obtain ⟨w', hw'⟩ := hko.1
@@ -241,8 +246,13 @@ theorem exhausted_complete (H : OHyp E rank Good) {s : St U π} (hb : Base E s) 
       (by intro j' aj hj' haj; have := (List.getElem?_eq_some_iff.mp haj).1; omega)
     rcases hdone _ hseen (hderl _ hla hpopa) j x sj (by rw [List.getElem?_set_self (by omega)]) hsj with ⟨q, h1, _⟩ | ⟨_, h2, _⟩
     · rw [last_no_succ hfj.1 hb.ninv l k x hlx] at h1; cases h1
-    · exact ih (rank sj) (by rw [← hr]; exact hrankj j sj hsj) sj rfl hfj h2 bj (derList_get E b v j bj sj hdl hbj hsj)
-  exact hseenPop _ (sweep v.length (Nat.le_refl _) b hlen hbpop
-    (by intro j' aj hj' haj; have := (List.getElem?_eq_some_iff.mp haj).1; omega))
+    · have hcl : PS.HG.clean E.filter bj = true := by
+        rw [PS.HG.clean, Bool.and_eq_true] at hclean
+        exact PS.HG.cleanList_get E.filter b j bj hclean.2 hbj
+      exact ih (rank sj) (by rw [← hr]; exact hrankj j sj hsj) sj rfl hfj h2 bj (derList_get E b v j bj sj hdl hbj hsj) hcl
+  rcases hseenPop _ (sweep v.length (Nat.le_refl _) b hlen hbpop
+    (by intro j' aj hj' haj; have := (List.getElem?_eq_some_iff.mp haj).1; omega)) with h1 | h1
+  · exact h1
+  · rw [PS.HG.clean_self E.filter _ hclean] at h1; cases h1
 
 end PS.UHS
